@@ -41,6 +41,9 @@ def lattices(tier):
                 non = [s for s in ss if len(set(s)) == 3] or [s for s in ss if len(set(s)) > 1]
                 two = [s for s in ss if len(set(s)) == 2]
                 ss = cubic[-1:] + non[-1:] + two[:1] + two[-1:]
+                for extra in ((2, 3, 3), (3, 2, 3), (3, 3, 2), (2, 3, 2)):
+                    if extra in two or extra in non:
+                        ss.append(extra)
             out += [(dname, cname, s) for s in dict.fromkeys(ss)]
     return out
 
